@@ -246,21 +246,17 @@ def check(case, ignore_regions=False) -> Outcome:
                 return fail("result-not-recognised-as-ctf-factor-form", result=str(r[0][0]))
             out.nontrivial = bool(want[1])
         elif op == "factorization":
-            if REGION_REFLEXIVE in regions and "reflexive-subscript" in labels:
-                out.excluded = REGION_REFLEXIVE
-                return out
             if REGION_PLUS_FACT in regions and plus_value_propagated(g, items):
                 out.excluded = REGION_PLUS_FACT
                 return out
-            # the factorisation is applied to SIMPLIFY's output, as in ctfTRu (its callers never pass raw events)
-            simp = api.simplify(event=_y0_event(items), graph=graph)
-            if simp is None:
-                labels.add("factorization:simplify-none(skipped)")
+            # Domain: events without reflexive subscripts (Definition 2.1 / Eq. 11 say nothing meaningful about Y_y, and
+            # the procedures remove such items with SIMPLIFY before they factorise); causally irrelevant subscripts are
+            # kept -- An(.) minimises them by definition, so the factorisation has to cope with non-minimal queries.
+            if "reflexive-subscript" in labels:
+                labels.add("factorization:reflexive(skipped)")
                 out.labels = sorted(labels)
                 return out
-            items = [dict(it) for it in cfutil.pairs_from_y0(simp)]
-            for it in items:
-                it.pop("value_name", None)
+            simp = _y0_event(items)
             if REGION_F15 in regions and symbol_needed_twice(g, items):
                 out.excluded = REGION_F15
                 return out
